@@ -60,13 +60,13 @@ ASSUMPTIONS = [
     'finite differences are trusted only where the response |J d| exceeds 1e-5 |f(x)| (saturated soft-max and the like are '
     'excluded and counted)',
     'GumbelSoftmax is differentiated at fixed noise: the same seeded Generator is injected before every forward call',
-    'numpy.vdot / matmul round-off is far below 1e-9 relative for the sizes used (<= 320x320); observed <= 1e-14',
+    'numpy.vdot / matmul round-off is far below 1e-9 relative for the sizes used (<= 320x320, 3x20000); observed <= 3e-15',
     'every call is judged with the value its arguments had when it was made (snapshots): a routine that scales its '
     'upstream-gradient argument in place (DM.render_backprop does, its docstring calls the argument a work-in-progress '
     'array) still returns the true gradient for the value it was handed, also on a later call with the same object, so '
     'that is counted as an event, not a violation; in-place changes of *parameters* (masks, modes, data, fields) are '
     'caught because later calls of the same plan then stop satisfying the law',
-    'single-precision slices: the law / the agreement with the double-precision twin is demanded to 1e-3 relative (adjoint law, measured round-off <= 4e-7) / 2e-2 relative '
+    'single-precision slices: the law / the agreement with the double-precision twin is demanded to 1e-3 relative (adjoint law, measured round-off <= 7e-7) / 2e-2 relative '
     '(gradient against its double-precision twin, measured round-off <= 1.3e-5) only; a narrow-configuration forward that differs from the double-precision forward by more '
     'than 1e-4 relative is excluded and counted (the twin would then be the gradient of another function)',
     'a used object and a brand-new one (same constructor arguments, same call) must agree to round-off because the '
@@ -75,12 +75,17 @@ ASSUMPTIONS = [
 REQUIRED = []          # filled from the table below
 UNREACHABLE = ['focal-plane masks / Lyot stops given as Wavefront objects: the forward routine itself raises TypeError '
                'on them, so there is no forward map to differentiate',
-               "method='czt' backprops: documented ValueError('not yet implemented')"]
+               "method='czt' backprops: documented ValueError('not yet implemented')",
+               'DM with per-axis actuator counts (Nact=(4, 3)): DM.render itself raises ValueError (the command array is (Nx, Ny), '
+               'the lattice slice (Ny, Nx)), so there is no forward map; per-axis separation, non-square influence functions and '
+               'per-axis upsample are exercised',
+               'upstream gradients that alias a forward output modified in place (Softmax.forward returns a view of the state its '
+               'backprop reads): whether a routine returns a view or a copy is not promised, so this is not driven']
 
 RT_LIN = 1e-9
 RT_DIR = 1e-6
 SETTLE = 1e-7
-RT_F32 = 1e-3      # single-precision adjoint law (measured round-off <= 2e-7)
+RT_F32 = 1e-3      # single-precision adjoint law (measured round-off <= 7e-7)
 RT_F32_NL = 2e-2   # single-precision gradient vs its double-precision twin (measured round-off <= 1.3e-5)
 RT_SAME = 1e-11     # used object vs brand-new object, repeat call vs first call (deterministic routines)
 FWD_F32 = 1e-4      # a narrow-configuration forward further than this from the double one is another function
@@ -234,8 +239,9 @@ class Pointwise:
     """An activation node: backprop(x) claimed to be d forward / dx elementwise."""
     kind = 'pointwise'
 
-    def __init__(self, node, x0, h, prec=64, xdt=None, lay='C', key=None, mon='pointwise'):
+    def __init__(self, node, x0, h, prec=64, xdt=None, lay='C', key=None, mon='pointwise', dmax=0.0):
         self.node, self.x0, self.h, self.prec, self.xdt, self.lay, self.key, self.mon = node, x0, h, prec, xdt, lay, key, mon
+        self.dmax = dmax      # largest slope the node can have: single-precision round-off is relative to it
 
 
 class Cost:
@@ -292,6 +298,16 @@ class Harness:
         fn = getattr(self, 'check_' + case.kind)
         trivial = fn(row, key, desc, case, rng)
         ctx.case(desc, nontrivial=not trivial)
+        self._trim()
+
+    def _trim(self):
+        """Keep the process-wide matrix-DFT executor bounded (public API only): it keeps two bases per distinct geometry."""
+        self.ncases = getattr(self, 'ncases', 0) + 1
+        if self.ncases % 20 == 0:
+            from prysm.fttools import mdft
+            if self.ncases % 400 == 0 or mdft.nbytes() > 1.5e8:
+                mdft.clear()
+                self.ctx.event('shared-mdft-executor-cleared')
 
     def _modified(self, row, what):
         self.ctx.event(f'argument-modified-in-place:{row}:{what}')
@@ -603,8 +619,8 @@ class Harness:
         except Exception as e:
             self._raised(mon, row, key, desc, e)
             return False
-        ctx.require('no-input-mutation:' + row, same(x, keep), key + '/mutates-input',
-                    f'{row} modifies the array it is given', desc)
+        intact = ctx.require('no-input-mutation:' + row, same(x, keep), key + '/mutates-input',
+                             f'{row} modifies the array it is given', desc)
         # reference: Richardson central differences where they are well conditioned; the complex-step derivative
         # (no subtractive cancellation) everywhere once it has been validated against Richardson on those elements;
         # always computed in double precision from the value the argument had
@@ -635,11 +651,15 @@ class Harness:
             ctx.violation(key + '/shape', f'{row}: shape {got.shape} != {ref.shape}', desc)
             return False
         rtol = RT_F32_NL if narrow else RT_DIR
+        if narrow:
+            scale = max(scale, float(c.dmax))
         ok = ctx.close(mon, got[use], ref[use], key, f'{row}(x) is not d forward/dx', desc, rtol=rtol, scale=scale)
         if ok:
             self._ro(row, float(np.max(np.abs(got[use] - ref[use]))) / scale, narrow=narrow)
+        if ok and intact:
+            rs = 1e-5 if narrow else RT_SAME      # single precision: vectorised and scalar loops may differ in the last place
             ctx.close('history:' + row, got2, got, key + '/repeat-call', f'{row}: a second call with the same array returns '
-                      'another derivative', desc, rtol=RT_SAME, scale=scale)
+                      'another derivative', desc, rtol=rs, scale=scale)
             # the same array object holding other numbers, against a new array holding those numbers
             x[...] = cast(np.asarray(keep)[..., ::-1] * 0.75 + 0.125, c.xdt) if x.ndim else cast(keep * 0.75 + 0.125, c.xdt)
             try:
@@ -647,7 +667,7 @@ class Harness:
                     got3 = np.array(c.node.backprop(x), copy=True)
                     ref3 = np.array(c.node.backprop(np.array(x, copy=True)), copy=True)
                 ctx.close('history:' + row, got3, ref3, key + '/repeat-call', f'{row}: the same array object holding other numbers '
-                          'gets another derivative than a new array holding those numbers', desc, rtol=RT_SAME,
+                          'gets another derivative than a new array holding those numbers', desc, rtol=rs,
                           scale=float(np.max(np.abs(ref3))) if ref3.size else 0.0)
             except Exception as e:
                 self._raised('history:' + row, row, key + '/repeat-call', desc, e)
@@ -818,8 +838,8 @@ def gen_mdft(ctx, rng, which):
     classes += [(a, b, q, s) for (a, b) in regimes for (q, s) in (('scalar', '0'), ('pair', 'nz'))]
     nreg = 2 * len(regimes)
     variants = LIN_VARIANTS + ('executor-history', 'private-executor')
-    reps = ctx.pick(24, 420)
-    big, long = ctx.pick(96, 320), ctx.pick(300, 2000)
+    reps = ctx.pick(24, 220)
+    big, long = ctx.pick(96, 320), ctx.pick(300, 1200)
     k = -1
     for rep in range(reps + 1):
         for ci, (ka, kb, kq, ks) in enumerate(classes):
@@ -914,7 +934,7 @@ def gen_ffs(ctx, rng, which, form):
     classes = [(ka, r, ks) for ka in kinds for r in rel for ks in ('0', 'nz')]
     classes += [('big', 'unequal', 'nz'), ('sliver', 'unequal', '0'), ('sliver', 'equal', 'nz'), ('big', 'equal', '0')]
     variants = LIN_VARIANTS + (('instance-history',) if form == 'Wavefront' else ())
-    reps = ctx.pick(96, 4800)
+    reps = ctx.pick(96, 1000)
     big, long = ctx.pick(72, 256), ctx.pick(200, 1200)
     k = -1
     for rep in range(reps + 1):
@@ -1021,7 +1041,7 @@ def gen_tfb(ctx, rng, form):
     hi = ctx.pick(9, 28)
     classes = [(mk, r, ks) for mk in ('real', 'complex') for r in ('same', 'other') for ks in ('0', 'nz')]
     variants = LIN_VARIANTS + ('mask-history',)
-    reps = ctx.pick(96, 4800)
+    reps = ctx.pick(96, 1000)
     big, long = ctx.pick(64, 200), ctx.pick(160, 900)
     k = -1
     for rep in range(reps + 1):
@@ -1092,8 +1112,8 @@ def gen_babinet(ctx, rng):
     hi = ctx.pick(9, 28)
     classes = [(lk, mk, r) for lk in ('none', 'real', 'complex') for mk in ('real', 'complex') for r in ('same', 'other')]
     variants = LIN_VARIANTS + ('mask-history',)
-    reps = ctx.pick(64, 1600)
-    big, long = ctx.pick(64, 200), ctx.pick(160, 900)
+    reps = ctx.pick(64, 520)
+    big, long = ctx.pick(64, 144), ctx.pick(160, 600)
     k = -1
     for rep in range(reps + 1):
         for ci, (lk, mk, r) in enumerate(classes):
@@ -1167,7 +1187,7 @@ def gen_intensity(ctx, rng):
     """Wavefront.intensity <-> intensity_backprop."""
     from prysm import propagation as P
     row = 'Wavefront.intensity_backprop'
-    n = ctx.share(ctx.pick(720, 20000))
+    n = ctx.share(ctx.pick(720, 9600))
     for i in range(n):
         kind, shape = _vjp_shape(ctx, rng, i, ctx.pick(10, 32))
         space = ['pupil', 'psf'][i % 2]
@@ -1212,7 +1232,7 @@ def gen_phase(ctx, rng):
     """Wavefront.from_amp_and_phase <-> from_amp_and_phase_backprop_phase."""
     from prysm import propagation as P
     row = 'Wavefront.from_amp_and_phase_backprop_phase'
-    n = ctx.share(ctx.pick(720, 20000))
+    n = ctx.share(ctx.pick(720, 9600))
     for i in range(n):
         kind, shape = _vjp_shape(ctx, rng, i, ctx.pick(10, 32))
         ak = ['real', 'complex', 'binary'][(i // 3) % 3]
@@ -1272,13 +1292,13 @@ def gen_modes(ctx, rng):
     """polynomials.sum_of_2d_modes <-> sum_of_2d_modes_backprop (linear in the weights)."""
     from prysm import polynomials
     row = 'sum_of_2d_modes_backprop'
-    n = ctx.share(ctx.pick(720, 20000))
+    n = ctx.share(ctx.pick(720, 9600))
     for i in range(n):
         kind, shape = _vjp_shape(ctx, rng, i, ctx.pick(10, 32))
         regime = kind in ('big', 'sliver')
         K = [1, 2, 5, int(rng.integers(1, 12))][i % 4] if not regime else [1, 40, 150][(i // 12) % 3]
-        if regime and K * shape[0] * shape[1] > ctx.pick(2, 8) * 10 ** 6:
-            K = max(1, ctx.pick(2, 8) * 10 ** 6 // (shape[0] * shape[1]))
+        if regime and K * shape[0] * shape[1] > ctx.pick(2, 3) * 10 ** 6:
+            K = max(1, ctx.pick(2, 3) * 10 ** 6 // (shape[0] * shape[1]))
         as_list = (i % 2 == 0)
         gk = ['r', 'c'][(i // 2) % 2]
         variant = LIN_VARIANTS[(i // 4 + i) % len(LIN_VARIANTS)]
@@ -1338,7 +1358,7 @@ def gen_dm(ctx, rng):
     """DM.render <-> DM.render_backprop (render is linear in the actuator commands)."""
     from prysm.x.dm import DM
     row = 'DM.render_backprop'
-    reps = ctx.pick(36, 640)
+    reps = ctx.pick(36, 360)
     k = -1
     for rep in range(reps):
         for ci, (feats, kw) in enumerate(DM_CONFIGS):
@@ -1493,7 +1513,7 @@ def gen_softmax(ctx, rng, which):
     """Softmax / GumbelSoftmax forward <-> backprop as vector-Jacobian products."""
     from prysm.x.optym.activation import Softmax, GumbelSoftmax
     row = which + '.backprop'
-    n = ctx.share(ctx.pick(720, 20000))
+    n = ctx.share(ctx.pick(720, 9600))
     HIST = ['annealed', 'shape-switch', 'double-backprop', 'forward-twice', 'copy']
     for i in range(n):
         nd, K, shape = _softmax_shape(ctx, rng, i)
@@ -1576,7 +1596,7 @@ def gen_encoder(ctx, rng):
     """DiscreteEncoder forward <-> backprop, 2-D and N-D inputs, Softmax and GumbelSoftmax estimators."""
     from prysm.x.optym.activation import Softmax, GumbelSoftmax, DiscreteEncoder
     row = 'DiscreteEncoder.backprop'
-    n = ctx.share(ctx.pick(720, 20000))
+    n = ctx.share(ctx.pick(720, 9600))
     HIST = ['annealed', 'shape-switch', 'double-backprop', 'forward-twice', 'copy', 'discretize-between']
     for i in range(n):
         regime = i % 10 == 9
@@ -1604,6 +1624,10 @@ def gen_encoder(ctx, rng):
         hist = HIST[(i // 32) % len(HIST)] if variant == 'history' else None
         if hist == 'annealed' and est != 'GumbelSoftmax':
             hist = 'shape-switch'
+        if hist == 'discretize-between' and est == 'GumbelSoftmax':
+            # discretize() draws fresh noise through the shared estimator: after it the estimator no longer holds the state
+            # of the forward pass, by design -- not a history the statement covers
+            hist = 'forward-twice'
         desc = {'shape': shape, 'estimator': est, 'levels': levels if lk == 'int' else levels.tolist(), 'tau': tau,
                 'noise_seed': seed, 'variant': variant, 'sub': _subseed(rng)}
         anneal = hist == 'annealed'
@@ -1652,10 +1676,6 @@ def gen_encoder(ctx, rng):
                 if hist == 'double-backprop':
                     nn.backprop(1.0 - g)
                 return nn.backprop(g)
-            if hist == 'discretize-between' and est == 'GumbelSoftmax':
-                # discretize() draws fresh noise through the estimator: after it the estimator no longer holds the
-                # state of the forward pass by design of the shared estimator -- not a history the statement covers
-                raise _OutOfDomain('discretize between forward and backprop with a stochastic estimator')
             tt = min(tau, 1.0) if est == 'GumbelSoftmax' else 1.0
             twins = config_twins(row, f, vjp, 'r', 'r', variant) if variant in ('dtypes', 'layouts') else ()
             return Vjp(f, vjp, x0, gkind='r', xkind='r', h=1e-2 * tt, twins=twins, after32=variant == 'dtypes', warm=variant == 'dtypes' and bool(r_.integers(2)),
@@ -1671,7 +1691,7 @@ def gen_activation(ctx, rng, name):
     from prysm.x.optym import activation
     klass = getattr(activation, name)
     R = name + '.backprop'
-    n = ctx.share(ctx.pick(720, 20000))
+    n = ctx.share(ctx.pick(720, 9600))
     for i in range(n):
         pk = ['default', 'a', 'a,x0', 'a,x0,y0', 'x0,y0'][i % 5]
         given = pk.split(',')
@@ -1721,7 +1741,7 @@ def gen_activation(ctx, rng, name):
             x = x0 + r_.uniform(-6, 6, shape) / a
             if xdt == 'f32':
                 x = f32_exact(x)
-            return Pointwise(node, np.asarray(x), 3e-3 / a, prec=prec, xdt=xdt, lay=lay, key=key, mon=mon)
+            return Pointwise(node, np.asarray(x), 3e-3 / a, prec=prec, xdt=xdt, lay=lay, key=key, mon=mon, dmax=abs(a))
         yield cls, desc, build
 
 
@@ -1729,7 +1749,7 @@ def gen_cost(ctx, rng, name):
     """mean_square_error / negative_loglikelihood / bias_and_gain_invariant_error: gradient of the returned cost."""
     from prysm.x.optym import cost
     fn = getattr(cost, name)
-    n = ctx.share(ctx.pick(720, 20000))
+    n = ctx.share(ctx.pick(720, 9600))
     VAR = ('plain', 'dtypes', 'layouts')
     for i in range(n):
         mk = ['unmasked', 'masked', 'mask-all-true'][i % 3]
@@ -1796,7 +1816,7 @@ def gen_spatial(ctx, rng, axis):
     from prysm.x.optym.operators import SpatialGradient2D
     row = 'SpatialGradient2D.backprop_' + axis
     op = SpatialGradient2D()          # one operator instance serves every case of the row (shape after shape)
-    n = ctx.share(ctx.pick(720, 20000))
+    n = ctx.share(ctx.pick(720, 9600))
     shapes0 = [(3, 3), (4, 4), (3, 4), (3, 5), (5, 3), (6, 4), (4, 7), (5, 8), (1, 5), (5, 1), (2, 2), (2, 6), (6, 2)]
     for i in range(n):
         if i < len(shapes0) and ctx.shard == 0:
@@ -1832,7 +1852,7 @@ def gen_f32(ctx, rng):
     """single-precision slice of the mdft / fixed-sampling adjoints: precision 32, complex64 data (loose tolerance)."""
     from prysm.fttools import mdft
     from prysm import propagation as P
-    n = ctx.share(ctx.pick(96, 4800))
+    n = ctx.share(ctx.pick(96, 2400))
     for i in range(n):
         sa = _rand_shape(rng, ['sq', 'nonsq'][i % 2], 3, ctx.pick(12, 40))
         sb = _rand_shape(rng, ['sq', 'nonsq'][(i // 2) % 2], 3, ctx.pick(12, 40))
